@@ -103,9 +103,14 @@ func c10ManyOptions(rng *Rng, tcp bool, maxlen int, maxk int) *c10Wire {
 		if rng.Chance(25) {
 			k = maxk - rng.Intn(2) // the large ones more often
 		}
-		w.n = 1<<k - 3 + rng.Intn(12)
+		w.n = 1<<k - 3 + rng.Intn(16)
 		if rng.Chance(10) {
 			w.n = 1 + rng.Intn(40)
+		}
+		if maxlen < 0 {
+			// the largest size of this sequence, above the power of two also after the skipped options
+			k, w.n = maxk, 1<<maxk+5+rng.Intn(8)
+			break
 		}
 		if w.n+24 <= maxlen {
 			break
@@ -113,7 +118,9 @@ func c10ManyOptions(rng *Rng, tcp bool, maxlen int, maxk int) *c10Wire {
 	}
 	w.b = byte(rng.Pick([]int{0x10, 0x10, 0x10, 0x10, 0x20, 0x00}))
 	var opts []byte
-	if rng.Chance(40) {
+	if maxlen < 0 {
+		w.b = 0x10
+	} else if rng.Chance(40) {
 		opts = []byte{0xb1, 'a'} // Uri-Path "a"
 	}
 	switch rng.Intn(6) {
@@ -176,6 +183,9 @@ func c10PoolSeq(seed uint64, tcp bool, maxk int) (coq string, returned bool, his
 	for i := 0; i < nsteps && returned; i++ {
 		var w *c10Wire
 		switch {
+		case i == 0 && maxk >= 12:
+			// the sequences with the large sizes start with the largest one (maxlen < 0: see c10ManyOptions)
+			w = c10ManyOptions(rng, tcp, -1, maxk)
 		case rng.Chance(70):
 			w = c10ManyOptions(rng, tcp, 9000, maxk)
 		case rng.Chance(50) || tcp:
